@@ -1,6 +1,6 @@
 # -*- coding: utf-8 -*-
 """C17 - the rerun file lists exactly the unsuccessful scenarios; fed back it selects them (E1 + E2 run -> file -> run)."""
-import os, sys, io, shutil, tempfile, logging, itertools
+import os, sys, io, re, shutil, tempfile, logging, itertools
 from vlib import prog as P, harness
 from vlib.core import digest
 
@@ -16,7 +16,10 @@ RULE = ("Two feature files on disk (features/f0.feature, features/f1.feature in 
         "plus, on 3 (thorough: 19) pairs, one container-level hook fault - after_feature / after_tag of a feature tag / "
         "before_feature for each file, after_rule / after_tag of a rule tag / before_rule for each rule (the container ends "
         "hook_error; after-hooks leave the scenarios' statuses alone, before-hooks leave them untested) - combined with "
-        "<= 2 (thorough: <= 3, on the quick pairs) non-pass slots, stale file present. Run 1 = real Configuration "
+        "<= 2 (thorough: <= 3, on the quick pairs) non-pass slots, stale file present; plus, on 3 (thorough: 6) pairs, the "
+        "same programs rendered with ALL Scenario / Scenario Outline / Rule / Examples titles identical (namesake plain "
+        "scenarios, namesakes in a feature and its rule, in two rules, same-named outlines whose rows get identical "
+        "generated names), <= 2 (thorough: <= 3) non-pass slots so that namesakes differ in success. Run 1 = real Configuration "
         "(-f rerun -o rerun.txt features), collect_feature_locations + parse_features on the files, formatters from "
         "make_formatters, ModelRunner with a fresh StepRegistry. Oracle: rerun.txt lists exactly file:line (line known "
         "from the renderer) of the scenarios whose final status is failed or error-class, in run order; none -> no file "
@@ -57,6 +60,8 @@ SHAPES = {
     "R(S)+R(O1)": _F((_R((_S(),)), _R((_O(ROWS1),)))),
     "O1|1": _F((P.O2([((), ROWS1), ((), ROWS1)]),)),
     "S,O2+R(S,O1)": _F((_S(), _O(ROWS2), _R((_S(), _O(ROWS1))))),
+    "R(S)+R(S)": _F((_R((_S(),)), _R((_S(),)))),            # identical-titles dimension only
+    "O1,O1": _F((_O(ROWS1), _O(ROWS1))),                    # identical-titles dimension only
 }
 QUICK_PAIRS = (("S", "S"), ("SS", "O2"), ("O2", "S+R(S)"), ("S+R(S)", "SS"), ("bg:S,O1", "R(S,O1)"),
                ("R(S,O1)", "O1|1"), ("O1|1", "bg:S,O1"), ("S", "O1+R(O2)"), ("O1+R(O2)", "S"), ("R(S)+R(O1)", "SS"),
@@ -64,6 +69,11 @@ QUICK_PAIRS = (("S", "S"), ("SS", "O2"), ("O2", "S+R(S)"), ("S+R(S)", "SS"), ("b
 # pairs that get the container-level hook faults in the quick tier (feature faults in both files; a rule holding a plain
 # scenario in f0, a rule holding a scenario and an outline row in f1)
 QUICK_FAULT_PAIRS = (("S", "S"), ("S+R(S)", "O2"), ("S", "R(S,O1)"))
+# identical-titles dimension: every Scenario / Scenario Outline / Rule / Examples title of both files is the same text, so
+# namesakes exist among plain scenarios, between a feature-level scenario and one in a rule, in two different rules, and
+# among outline rows (two same-named outlines generate identical row names "same -- @1.1 same")
+DUP_PAIRS = (("SS", "S+R(S)"), ("R(S)+R(S)", "O1,O1"), ("O1+R(O2)", "SS"))
+DUP_PAIRS_THOROUGH = DUP_PAIRS + (("S,O2+R(S,O1)", "S"), ("bg:S,O1", "R(S,O1)"), ("O2", "R(S)+R(O1)"))
 THOROUGH_PAIRS = QUICK_PAIRS + (("SS", "SS"), ("O2", "O2"), ("O1+R(O2)", "R(S,O1)"), ("S", "S,O2+R(S,O1)"),
                                 ("S,O2+R(S,O1)", "S"), ("R(S)+R(O1)", "O1+R(O2)"))
 
@@ -127,6 +137,14 @@ def build(shape0, shape1, kinds, cfault=None):
     paths = [p for p, _k, _i in P.walk_scenarios(prog)]
     assert len(paths) == len(kinds)
     return prog, paths
+
+
+_TITLE = re.compile(r"^(\s*(?:Scenario Outline|Scenario|Rule|Examples):).*$")
+
+
+def same_titles(text):
+    """give every Scenario / Scenario Outline / Rule / Examples line the title 'same' (line numbers are unchanged)"""
+    return "\n".join(_TITLE.sub(lambda mo: mo.group(1) + " same", line) for line in text.split("\n"))
 
 
 def fname(fi):
@@ -303,9 +321,11 @@ def elem_class(path, prog):
 
 # ------------------------------------------------------------------------------------------- the case function
 def rerun_case(case):
-    """case = (shape0, shape1, kinds, stale[, cfault])   cfault = None | (container path, hook name)"""
+    """case = (shape0, shape1, kinds, stale[, cfault[, dup]])   cfault = None | (container path, hook name);
+    dup = 1: all scenario / outline / rule / examples titles identical"""
     shape0, shape1, kinds, stale = case[:4]
     cfault = case[4] if len(case) > 4 else None
+    dup = case[5] if len(case) > 5 else 0
     m = harness._imp()
     harness.reset_globals()
     prog, order = build(shape0, shape1, kinds, cfault)
@@ -325,6 +345,8 @@ def rerun_case(case):
         path2loc, loc2path, loc2cont = {}, {}, {}
         for fi, f in enumerate(prog):
             text, meta = P.render(f, fi)
+            if dup:
+                text = same_titles(text)
             with io.open(fname(fi), "w", encoding="utf-8") as fh:
                 fh.write(text)
             loc2cont[(fname(fi), meta["lines"][(fi,)])] = (fi,)
@@ -454,16 +476,22 @@ def rerun_case(case):
         if (0 < n_unsucc < len(order)) or (n_unsucc == 0 and stale):
             nt = digest(case)
         out = (tuple(sorted(set(st1.values()))), min(n_unsucc, 3), text1 is not None, bool(stale), o2 is not None,
-               cfault and (cfault[1], "feature" if len(cfault[0]) == 1 else "rule"))
+               cfault and (cfault[1], "feature" if len(cfault[0]) == 1 else "rule"), int(bool(dup)))
         dg = (text1, sorted(st1.items()), o1["calls"], o1["before"], o1["after"], o1["chooks"], sorted(o1["cstatus"].items()),
               o2 and (sorted(o2["selected"].items()), sorted(o2["status"].items()), o2["calls"], o2["before"]), text2)
-        return {"v": v, "nt": nt, "out": out, "dg": dg, "n": 1 if o2 is None else 2}
+        res = {"v": v, "nt": nt, "out": out, "dg": dg, "n": 1 if o2 is None else 2}
     finally:
         sys.stdout, sys.stderr = old_out, old_err
         root.handlers[:] = saved_handlers
         root.setLevel(saved_level)
         os.chdir(cwd)
         shutil.rmtree(d, ignore_errors=True)
+    if dup and res["v"]:
+        # trigger class: the identical titles, if the same program with distinct titles is clean
+        plain = rerun_case((shape0, shape1, kinds, stale, cfault, 0))
+        if not plain["v"]:
+            res["v"] = [(dict(desc, titles="identical"), "identical titles: " + msg) for desc, msg in res["v"]]
+    return res
 
 
 # ------------------------------------------------------------------------------------------- enumeration
@@ -500,6 +528,13 @@ def cases(tier):
             for cf in container_faults(s0, s1):
                 for kinds in assignments(n, ndev):
                     yield (s0, s1, kinds, 1, cf)
+        # identical titles (namesakes differing in success), full history, stale file present
+        for a, b in (DUP_PAIRS if quick else DUP_PAIRS_THOROUGH):
+            if ndev > (2 if quick else 3):
+                continue
+            s0, s1 = SHAPES[a], SHAPES[b]
+            for kinds in assignments(nslots(s0) + nslots(s1), ndev):
+                yield (s0, s1, kinds, 1, None, 1)
 
 
 def run(ctx):
@@ -510,10 +545,12 @@ def run(ctx):
                                            "after_rule/after_tag/before_rule per rule",
                   "container_fault_pairs": "3 pairs, <= 2 non-pass scenarios" if ctx.quick else
                                            "19 pairs, <= 3 non-pass scenarios on the 11 quick pairs, <= 2 on the others",
+                  "identical_titles": "%d pairs, <= %d non-pass scenarios, all Scenario/Outline/Rule/Examples titles equal"
+                                      % ((len(DUP_PAIRS), 2) if ctx.quick else (len(DUP_PAIRS_THOROUGH), 3)),
                   "executions": "a case with a rerun file counts 2 (run + re-run), otherwise 1"}
     ctx.sweep(rerun_case, cases(ctx.tier), chunk=16, name="run -> rerun.txt -> run")
     kinds_seen = set()
-    for (statuses, _n, _f, _s, _second, _cf) in ctx.outcomes:
+    for (statuses, _n, _f, _s, _second, _cf, _dup) in ctx.outcomes:
         kinds_seen |= set(statuses)
     for need in ("passed", "failed", "error", "hook_error", "skipped"):
         ctx.guard(need in kinds_seen, "scenario status %s occurred in run 1" % need)
@@ -526,4 +563,6 @@ def run(ctx):
             ctx.guard((h, lvl) in cfs, "container fault %s at %s level exercised" % (h, lvl))
     ctx.guard(any(o[5] and o[5][0].startswith("after_") and o[1] > 0 and o[4] for o in ctx.outcomes),
               "a container with a raising after-hook held unsuccessful scenarios and the file was fed back")
+    ctx.guard(any(o[6] and o[4] and o[1] > 0 for o in ctx.outcomes),
+              "identical titles: a file naming some namesake scenarios was fed back")
     ctx.guard(len(ctx.nt) >= (1000 if ctx.quick else 20000), "enough discriminating cases")
